@@ -329,4 +329,604 @@ theorem flushPk_length_le (c : Conn) : (flushPk c).length ≤ c.units + 1 := by
     | err e => exact e.elim
     | panic m => exact Nat.zero_le _
 
+/-! ## Part 2 — units do not grow (everything but `send_message`) -/
+
+theorem kin_units : ∀ {a b : Unacked}, a.Kin b → entryUnits a = entryUnits b
+  | .small .., .small .., _ => rfl
+  | .sliced .., .sliced .., h => h.2
+  | .small .., .sliced .., h => h.elim
+  | .sliced .., .small .., h => h.elim
+
+theorem mapUnits_append : ∀ (a b : SMap Unacked), mapUnits (a ++ b) = mapUnits a + mapUnits b
+  | [], b => by simp
+  | (k, u) :: a, b => by simp only [List.cons_append, mapUnits_cons, mapUnits_append a b]; omega
+
+theorem mapUnits_le_of_embed : ∀ (l1 l2 : SMap Unacked), SI.Sorted l1 → SI.Sorted l2 →
+    (∀ x ∈ l1, ∃ u0, (x.1, u0) ∈ l2 ∧ entryUnits x.2 ≤ entryUnits u0) → mapUnits l1 ≤ mapUnits l2
+  | [], _, _, _, _ => Nat.zero_le _
+  | (k, u) :: r1, l2, hs1, hs2, h => by
+    obtain ⟨u0, hm, hc⟩ := h (k, u) (List.mem_cons_self ..)
+    obtain ⟨a, b, rfl⟩ := List.append_of_mem hm
+    obtain ⟨-, hsb, hab⟩ := sorted_append hs2
+    rw [SI.sorted_cons] at hs1 hsb
+    have ih := mapUnits_le_of_embed r1 b hs1.2 hsb.2 (by
+      intro y hy
+      obtain ⟨v0, hv, hcv⟩ := h y (List.mem_cons_of_mem _ hy)
+      have hky := hs1.1 y hy
+      refine ⟨v0, ?_, hcv⟩
+      rcases List.mem_append.mp hv with e | e
+      · have := hab _ e (k, u0) (List.mem_cons_self ..)
+        dsimp only at this; omega
+      · rcases List.mem_cons.mp e with e' | e'
+        · have : y.1 = k := congrArg Prod.fst e'
+          omega
+        · exact e')
+    rw [mapUnits_append]
+    simp only [mapUnits_cons] at ih ⊢
+    dsimp only at hc
+    omega
+
+/-- acknowledgements only release: the units of a reliable send channel do not grow -/
+theorem ackMono_units {s s' : SendRel} (hi : s.Inv) (hi' : s'.Inv) (hm : AckMono s s') : relUnits s' ≤ relUnits s := by
+  unfold relUnits
+  have := mapUnits_le_of_embed s'.unacked s.unacked hi'.sorted hi.sorted (by
+    intro x hx
+    obtain ⟨u, hu, hk⟩ := hm.2.2 x.1 x.2 (SI.mem_find?_of_sorted hi'.sorted hx)
+    exact ⟨u, SI.find?_some_mem hu, Nat.le_of_eq (kin_units hk).symm⟩)
+  omega
+
+theorem ackOne_order {c c' : Conn} {seq : Nat} (h : Conn.ackOne c seq = .ok c') : c'.order = c.order := by
+  unfold Conn.ackOne at h
+  split at h
+  · cases h
+  · next t info hf =>
+    dsimp only at h
+    split at h
+    · next ch ids =>
+      split at h
+      · cases h
+      · next s hs =>
+        cases h1 : Conn.ackMsgLoop s ids with
+        | ok s1 =>
+          rw [h1] at h
+          simp only [Res.bind_ok, Res.pure_eq, Res.ok.injEq] at h
+          subst h; rfl
+        | err e => exact e.elim
+        | panic m => rw [h1] at h; cases h
+    · next ch id idx =>
+      split at h
+      · cases h
+      · next s hs =>
+        cases h1 : s.processSliceAck id idx with
+        | ok s1 =>
+          rw [h1] at h
+          simp only [Res.bind_ok, Res.pure_eq, Res.ok.injEq] at h
+          subst h; rfl
+        | err e => exact e.elim
+        | panic m => rw [h1] at h; cases h
+    · simp only [Res.ok.injEq] at h; subst h; rfl
+    · simp only [Res.ok.injEq] at h; subst h; rfl
+
+theorem ackOne_found {c c' : Conn} {seq : Nat} (h : Conn.ackOne c seq = .ok c') :
+    ∃ t info, SMap.find? c.sent seq = some (t, info) := by
+  cases hv : SMap.find? c.sent seq with
+  | none => unfold Conn.ackOne at h; rw [hv] at h; cases h
+  | some v => exact ⟨v.1, v.2, rfl⟩
+
+theorem ackLoop_conn : ∀ (L : List Nat) (c c' : Conn), c.SendInv → Conn.ackLoop c L = .ok c' →
+    c'.SendInv ∧ ConnAckMono c c' ∧ c'.order = c.order
+  | [], c, c', hinv, h => by
+    simp only [Conn.ackLoop, Res.ok.injEq] at h; subst h
+    exact ⟨hinv, ConnAckMono.refl _, rfl⟩
+  | seq :: rest, c, c', hinv, h => by
+    simp only [Conn.ackLoop] at h
+    cases h1 : Conn.ackOne c seq with
+    | ok c1 =>
+      rw [h1] at h
+      simp only [Res.bind_ok] at h
+      obtain ⟨t, info, hv⟩ := ackOne_found h1
+      obtain ⟨i1, -, m1, -⟩ := ackOne_forward hinv hv h1
+      obtain ⟨i2, m2, o2⟩ := ackLoop_conn rest c1 c' i1 h
+      exact ⟨i2, m1.trans m2, o2.trans (ackOne_order h1)⟩
+    | err e => exact e.elim
+    | panic m => rw [h1] at h; cases h
+
+theorem units_congr {c c' : Conn} (h1 : c'.sendRel = c.sendRel) (h2 : c'.sendUnrel = c.sendUnrel) (h3 : c'.order = c.order) :
+    c'.units = c.units := by unfold Conn.units; rw [h1, h2, h3]
+
+/-- `process_packet` does not raise the units of the send side -/
+theorem packet_units {c c' : Conn} {bytes : Bytes} (hinv : c.SendInv) (h : c.processPacket bytes = .ok c') :
+    c'.units ≤ c.units := by
+  rcases SI.Conn.processPacket_cases h with ⟨hs1, -, -⟩ | ⟨p, -, -, hs1, -⟩ | ⟨aseq, ranges, L, -, -, -, hloop⟩
+  · exact Nat.le_of_eq (units_congr hs1.1 hs1.2.1 hs1.2.2.2.2)
+  · exact Nat.le_of_eq (units_congr hs1.1 hs1.2.1 hs1.2.2.2.2)
+  · have hinv0 : ({ c with pendingAcks := Acks.add ACK_RANGE_CAP aseq c.pendingAcks } : Conn).SendInv :=
+      ⟨hinv.chans, hinv.sentSorted, hinv.sentOK, hinv.order⟩
+    obtain ⟨i2, m2, o2⟩ := ackLoop_conn L _ c' hinv0 hloop
+    obtain ⟨a1, a2, -⟩ := ackLoop_same L _ c' hloop
+    unfold Conn.units
+    rw [o2]
+    refine ordUnits_mono ⟨?_, ?_⟩ c.order
+    · intro ch
+      cases hf' : SMap.find? c'.sendRel ch with
+      | none => exact Nat.zero_le _
+      | some s' =>
+        obtain ⟨s, hf, -, -⟩ := a1 ch s' hf'
+        obtain ⟨s'', hf'', hm⟩ := m2 ch s hf
+        rw [hf'] at hf''; cases hf''
+        have hf0 : SMap.find? c.sendRel ch = some s := hf
+        rw [hf0]
+        exact ackMono_units (hinv.chans ch s hf0).1 (i2.chans ch s' hf').1 hm
+    · intro ch
+      rw [a2]
+      exact Nat.le_refl _
+
+/-- `get_packets_to_send` does not raise the units of the send side -/
+theorem flush_units {c c' : Conn} {out : List Bytes} (h : c.getPacketsToSend = .ok (c', out)) : c'.units ≤ c.units := by
+  cases hd : c.isDisconnected with
+  | true =>
+    unfold Conn.getPacketsToSend at h
+    rw [hd] at h
+    simp only [if_true, Res.ok.injEq, Prod.mk.injEq] at h
+    obtain ⟨rfl, -⟩ := h
+    exact Nat.le_refl _
+  | false =>
+    obtain ⟨sr, su, pk, seq, avail, hl, e1, -, -, -, -, e2, e3⟩ := CI.getPacketsToSend_shape hd h
+    obtain ⟨-, a2⟩ := chanLoop_count _ _ _ _ _ _ _ _ _ _ _ _ hl
+    unfold Conn.units
+    rw [e1, e2, e3]
+    exact ordUnits_mono a2 c.order
+
+/-- what one operation other than `sendA` does to the units of A: nothing, or it lowers them -/
+theorem units_step {cfg : Cfg} {s s' : Sys} {pk : List Packet} {op : SysOp} (h1 : Inv1 cfg s pk)
+    (hs : s.step op = some s') (hop : ∀ ch m, op ≠ .sendA ch m) : s'.a.units ≤ s.a.units := by
+  cases op with
+  | sendA ch m => exact absurd rfl (hop ch m)
+  | recvB ch =>
+    simp only [Sys.step] at hs
+    split at hs
+    · cases hs; exact Nat.le_refl _
+    · cases hs; exact Nat.le_refl _
+    · cases hs
+  | updA dt =>
+    simp only [Sys.step] at hs
+    split at hs
+    · next a' hm =>
+      cases hs
+      obtain ⟨e1, e2, -, e4, -⟩ := SI.Conn.update_spec hm
+      exact Nat.le_of_eq (units_congr e1 e2 e4)
+    · cases hs
+  | updB dt =>
+    simp only [Sys.step] at hs
+    split at hs
+    · cases hs; exact Nat.le_refl _
+    · cases hs
+  | flushA =>
+    simp only [Sys.step] at hs
+    split at hs
+    · next a' bs hm => cases hs; exact flush_units hm
+    · cases hs
+  | flushB =>
+    simp only [Sys.step] at hs
+    split at hs
+    · cases hs; exact Nat.le_refl _
+    · cases hs
+  | deliverToB k =>
+    simp only [Sys.step] at hs
+    split at hs
+    · cases hs
+    · split at hs
+      · cases hs; exact Nat.le_refl _
+      · cases hs
+  | deliverToA k =>
+    simp only [Sys.step] at hs
+    split at hs
+    · cases hs
+    · split at hs
+      · next a' hm => cases hs; exact packet_units h1.invA.1 hm
+      · cases hs
+
+theorem units_run (cfg : Cfg) : ∀ (ops : List SysOp) (s s' : Sys) (pk : List Packet), Inv1 cfg s pk →
+    s.run ops = some s' → (∀ op ∈ ops, ∀ ch m, op ≠ .sendA ch m) → s'.a.units ≤ s.a.units
+  | [], s, s', _, _, h, _ => by
+    simp only [Sys.run, Option.some.injEq] at h; subst h; exact Nat.le_refl _
+  | op :: ops, s, s', pk, h1, h, hno => by
+    simp only [Sys.run] at h
+    cases hs : s.step op with
+    | none => rw [hs] at h; cases h
+    | some s1 =>
+      rw [hs] at h
+      have a := units_step h1 hs (hno op (List.mem_cons_self ..))
+      have b := units_run cfg ops s1 s' _ (inv1_step h1 hs) h (fun o ho => hno o (List.mem_cons_of_mem _ ho))
+      omega
+
+/-! ## Part 3 — a non-empty due backlog that is offered `SLICE_SIZE` bytes emits a packet -/
+
+theorem exists_unacked : ∀ (l : List Bool), l.count true < l.length → ∃ i, i < l.length ∧ l.getD i false = false
+  | [], h => by simp at h
+  | false :: r, _ => ⟨0, by simp, rfl⟩
+  | true :: r, h => by
+    simp only [List.count_cons_self, List.length_cons] at h
+    obtain ⟨i, hi, hg⟩ := exists_unacked r (by omega)
+    exact ⟨i + 1, by simp only [List.length_cons]; omega, by simpa using hg⟩
+
+theorem slicedLoop_emits (ch id now resend : Nat) (msg : Bytes) (n start : Nat) (acked : List Bool) (hn : 0 < n) :
+    ∀ (l : List Nat) (ls : List (Option Nat)) (next : Nat) (gp : GP), SLICE_SIZE ≤ gp.avail →
+    (∀ i, i < n → acked.getD i false = false → smallDue now resend (ls.getD i none) = true) →
+    (∃ i0 ∈ l, acked.getD ((start + i0) % n) false = false) →
+    (slicedLoop ch id now resend msg n start acked l (ls, next, gp)).2.2.packets ≠ []
+  | [], _, _, _, _, _, h => by obtain ⟨i0, hi0, -⟩ := h; cases hi0
+  | i0 :: rest, ls, next, gp, hav, hdue, hw => by
+    rw [slicedLoop_cons, if_neg (by omega)]
+    cases ha : acked.getD ((start + i0) % n) false with
+    | true =>
+      simp only [true_or, ↓reduceIte]
+      obtain ⟨j, hj, hjk⟩ := hw
+      rcases List.mem_cons.mp hj with e | hj'
+      · subst e; rw [ha] at hjk; cases hjk
+      · exact slicedLoop_emits ch id now resend msg n start acked hn rest ls next gp hav hdue ⟨j, hj', hjk⟩
+    | false =>
+      have hd := hdue _ (Nat.mod_lt _ hn) ha
+      rw [hd]
+      simp only [Bool.false_eq_true]
+      have hm := (slicedLoop_mono ch id now resend msg n start acked rest (ls.set ((start + i0) % n) (some now))
+        ((start + i0) % n + 1 % n) (sliceStep ch id msg n ((start + i0) % n) gp)).1
+        (Packet.reliableSlice gp.seq ch ⟨id, (start + i0) % n, n, sliceBytes msg n ((start + i0) % n)⟩)
+        (by simp [sliceStep])
+      exact List.ne_nil_of_mem hm
+
+theorem finishRel_small (ch : Nat) (g : GP) : (finishRel ch g).small = [] := by
+  unfold finishRel
+  split
+  · next h => exact List.isEmpty_iff.mp h
+  · rfl
+
+/-- **a reliable send channel with a non-empty, due backlog that is offered at least `SLICE_SIZE` bytes emits a packet** -/
+theorem getPackets_ne_nil {s : SendRel} (hi : s.Inv) (hne : s.unacked ≠ []) {now : Nat}
+    (hdue : AllDue now s.resend s.unacked) {avail : Nat} (hav : SLICE_SIZE ≤ avail) (seq : Nat) :
+    (s.getPackets seq avail now).2.1 ≠ [] := by
+  rw [SendRel.getPackets_eq]
+  dsimp only
+  cases hu : s.unacked with
+  | nil => exact absurd hu hne
+  | cons x rest =>
+    obtain ⟨id, u⟩ := x
+    have hmem : (id, u) ∈ s.unacked := by rw [hu]; exact List.mem_cons_self ..
+    have hok := hi.entries _ hmem
+    have hd := hdue _ hmem
+    cases u with
+    | small m ls =>
+      have hlen : m.length ≤ SLICE_SIZE := hok
+      have hin := relLoop_small_live s.ch now s.resend [] rest id m ls ⟨[], [], 0, seq, avail⟩ hd
+        (by rw [relLoop_nil]; dsimp only; omega)
+      rw [List.nil_append] at hin
+      rw [← finishRel_msgs s.ch] at hin
+      unfold GP.msgs at hin
+      rw [finishRel_small, List.append_nil] at hin
+      intro e
+      rw [e] at hin
+      simp at hin
+    | sliced m n na nx ak ls =>
+      obtain ⟨-, -, o3, -, o5, o6⟩ := hok
+      obtain ⟨i, hil, hig⟩ := exists_unacked ak (by omega)
+      have hn : 0 < n := by omega
+      obtain ⟨i0, hi0, hi0e⟩ := exists_loop_index nx n i (by omega)
+      have hem := slicedLoop_emits s.ch id now s.resend m n nx ak hn (List.range n) ls nx ⟨[], [], 0, seq, avail⟩ hav hd
+        ⟨i0, List.mem_range.mpr hi0, by rw [hi0e]; exact hig⟩
+      obtain ⟨p, hp⟩ := List.exists_mem_of_ne_nil _ hem
+      rw [relLoop_sliced]
+      dsimp only
+      exact List.ne_nil_of_mem ((Mono_finishRel s.ch _).1 p ((relLoop_mono s.ch now s.resend rest _).1 p hp))
+
+/-- **the flush of a live connection is non-empty** when a reliable channel in the channel order has a non-empty due
+    backlog and at least `SLICE_SIZE` bytes of budget are left at its turn -/
+theorem flushPk_ne_nil {c : Conn} (hinv : c.Inv) (hcnt : c.CountersOK) (hd : c.isDisconnected = false) {ch : Nat}
+    {sA : SendRel} (hf : SMap.find? c.sendRel ch = some sA) (hord : (true, ch) ∈ c.order)
+    (hne : sA.unacked ≠ []) (hdue : AllDue c.now sA.resend sA.unacked) (hav : SLICE_SIZE ≤ availAtTurn c ch) :
+    flushPk c ≠ [] := by
+  obtain ⟨c', bs, seq1, -, -, -, hcont⟩ := flush_contains hinv hcnt hd hf hord
+  obtain ⟨p, hp⟩ := List.exists_mem_of_ne_nil _ (getPackets_ne_nil (hinv.send.chans ch sA hf).1 hne hdue hav seq1)
+  exact List.ne_nil_of_mem (hcont p hp)
+
+/-! ## Part 4 — schedule facts WITHOUT "the round hands B a datagram"; head-room in units -/
+
+/-- the schedule facts of one round, seen from the state `su` A's flush starts from.  Differs from `TickSched2` in
+    `nonempty0`: `r.ks ≠ []` is demanded ONLY when the round starts with an EMPTY backlog on channel `ch` (then A's flush
+    need not emit anything, but `Rounds.back` still wants B to hold something to acknowledge); for a round that starts
+    with a non-empty backlog it is derived (`flushPk_ne_nil`). -/
+structure TickSched3 (ch : Nat) (Sched : Sys → Prop) (su : Sys) (r : RoundP) : Prop where
+  sched : Sched su
+  all : ∀ k ∈ newIdx su, k ∈ r.ks
+  exact : ∀ k ∈ r.ks, k ∈ newIdx su
+  nonempty0 : (∀ sA, SMap.find? su.a.sendRel ch = some sA → sA.unacked = []) → r.ks ≠ []
+  back : ∀ u, su.run (roundOps ch r.ks r.n) = some u → r.ai = ackIdx u
+
+structure RoundSched3 (ch : Nat) (Sched : Sys → Prop) (s : Sys) (r : RoundP) : Prop where
+  timer : ∀ sA, SMap.find? s.a.sendRel ch = some sA → sA.resend ≤ r.dt
+  drain : (s.submitted ch).length ≤ (s.obtained ch).length + r.n
+  tick : ∀ su, s.step (.updA r.dt) = some su → TickSched3 ch Sched su r
+
+def RoundsSched3 (ch : Nat) (Sched : Sys → Prop) : Sys → List RoundP → Prop
+  | _, [] => True
+  | s, r :: rs => RoundSched3 ch Sched s r ∧ ∀ v, s.run (r.ops ch) = some v → RoundsSched3 ch Sched v rs
+
+/-- head-room on the initial state; differs from `HeadRoom2` in `seqA`: `units + 1` sequence numbers per round, where
+    `units` is read off the INITIAL state (instead of one per datagram the schedule hands over, plus one per round) -/
+structure HeadRoom3 (cfg : Cfg) (s : Sys) (rs : List RoundP) : Prop where
+  sys : CountersOK cfg s
+  staticA : StaticOK s.a
+  staticB : StaticOK s.b
+  seqA : s.a.packetSeq + rs.length * (s.a.units + 1) ≤ Varint.MAX + 1
+  seqB : s.b.packetSeq + rs.length ≤ Varint.MAX + 1
+  acks : s.b.pendingAcks.length + kTotal rs < ACK_RANGE_CAP
+
+theorem roundP_ops_nosend (ch : Nat) (r : RoundP) : ∀ op ∈ r.ops ch, ∀ c m, op ≠ .sendA c m := by
+  intro op hop c m e
+  subst e
+  simp [RoundP.ops, fullRoundOps, roundOps] at hop
+
+/-- **A's counters and the non-emptiness of its flush, for one round** — the step that breaks the circle of note (C):
+    `su.a.CountersOK` from the unit bound (no non-emptiness needed), then the flush is non-empty. -/
+theorem tick_facts (cfg : Cfg) (ch : Nat) (ops : List SysOp) (s : Sys) (hr : (Sys.init cfg).run ops = some s)
+    (hda : s.a.isDisconnected = false) (sA : SendRel) (hfA : SMap.find? s.a.sendRel ch = some sA)
+    (dt : Nat) (hdt : sA.resend ≤ dt) (su : Sys) (hsu : s.step (.updA dt) = some su)
+    (hst : StaticOK s.a) (hseq : s.a.packetSeq + s.a.units + 1 ≤ Varint.MAX + 1) :
+    su.a.CountersOK ∧ su.a.units ≤ s.a.units ∧ su.a.flushSeq ≤ s.a.packetSeq + s.a.units + 1 ∧
+    (sA.unacked ≠ [] → SLICE_SIZE ≤ availAtTurn su.a ch → flushPk su.a ≠ []) := by
+  obtain ⟨pk, h1, -⟩ := system_inv cfg ops s hr
+  have hrsu := run_snoc hr hsu
+  obtain ⟨pku, h1u, -⟩ := system_inv cfg _ su hrsu
+  obtain ⟨-, -, e3, e4, -⟩ := updA_frame hsu
+  have hun := units_step h1 hsu (by intro c m e; cases e)
+  have hfs := flushSeq_le_units h1u.invA.1
+  have hcA : su.a.CountersOK :=
+    countersOK_of_static ((step_frame h1 hsu (by intro c m e; cases e)).1 hst) (by omega)
+  refine ⟨hcA, hun, by omega, ?_⟩
+  intro hne hav
+  obtain ⟨hfu, hdue⟩ := due_after_update cfg ops s hr ch sA hfA dt hdt su hsu
+  exact flushPk_ne_nil (reach_conn h1u.reachA).1 hcA (by rw [e3]; exact hda) hfu (order_mem h1u.reachA hfu) hne hdue hav
+
+theorem ks_ne_of_flush {su : Sys} {ks : List Nat} (hall : ∀ k ∈ newIdx su, k ∈ ks) (hne : flushPk su.a ≠ []) : ks ≠ [] := by
+  have hk : su.outA.length ∈ newIdx su := by
+    unfold newIdx
+    rw [List.mem_range'_1]
+    have : 0 < (flushPk su.a).length := List.length_pos_iff.mpr hne
+    omega
+  exact List.ne_nil_of_mem (hall _ hk)
+
+/-- **Closing the side conditions, third step**: as `rounds_of_sched2`, but `r.ks ≠ []` is derived for every round that
+    starts with a non-empty backlog (`hS`: the scheduling hypothesis yields H4 and `SLICE_SIZE` bytes at the channel's
+    turn), and A's head-room is `packetSeq + k * (units + 1) ≤ 2^62` on the initial state. -/
+theorem rounds_of_sched3 (cfg : Cfg) (ch : Nat) (ord : Bool) (ho : KindOf cfg ch ord) (Sched : Sys → Prop)
+    (hS : ∀ ops' su, (Sys.init cfg).run ops' = some su → Sched su →
+      (∀ p ∈ flushPk su.a, OnlyCh ch p) ∧ SLICE_SIZE ≤ availAtTurn su.a ch) :
+    ∀ (rs : List RoundP) (ops : List SysOp) (s : Sys) (sA : SendRel) (rB : RecvRel),
+      (Sys.init cfg).run ops = some s → s.a.isDisconnected = false → s.b.isDisconnected = false →
+      SMap.find? s.a.sendRel ch = some sA → SMap.find? s.b.recvRel ch = some rB → Room (s.submitted ch) rB →
+      RoundsSched3 ch Sched s rs → HeadRoom3 cfg s rs → Rounds cfg ch Sched s rs
+  | [], _, _, _, _, _, _, _, _, _, _, _, _ => trivial
+  | r :: rs, ops, s, sA, rB, hr, hda, hdb, hfA, hfB, H3, hRS, hH => by
+    obtain ⟨hsch, hnext⟩ := hRS
+    obtain ⟨pk, h1, -⟩ := system_inv cfg ops s hr
+    obtain ⟨su, hsu⟩ := updA_step h1 r.dt
+    have tk := hsch.tick su hsu
+    obtain ⟨-, e2, e3, e4, e5, e6, e7, -, -⟩ := updA_frame hsu
+    have hrsu := run_snoc hr hsu
+    obtain ⟨pku, h1u, -⟩ := system_inv cfg _ su hrsu
+    have hkT : kTotal (r :: rs) = r.ks.length + kTotal rs := rfl
+    have hseqA := hH.seqA
+    have hseqB := hH.seqB
+    have hacks := hH.acks
+    rw [hkT] at hacks
+    simp only [List.length_cons] at hseqA hseqB
+    rw [Nat.succ_mul] at hseqA
+    generalize hX : rs.length * (s.a.units + 1) = X at hseqA
+    -- A's flush: counters from the unit bound, then non-empty
+    obtain ⟨H4, hav⟩ := hS _ su hrsu tk.sched
+    obtain ⟨hcA, hunu, hfs, hne⟩ := tick_facts cfg ch ops s hr hda sA hfA r.dt (hsch.timer sA hfA) su hsu hH.staticA (by omega)
+    have hfu : SMap.find? su.a.sendRel ch = some sA := by rw [e2]; exact hfA
+    have hks : r.ks ≠ [] := by
+      by_cases hemp : sA.unacked = []
+      · exact tk.nonempty0 (fun sA' hf' => by rw [hfu] at hf'; cases hf'; exact hemp)
+      · exact ks_ne_of_flush tk.all (hne hemp hav)
+    obtain ⟨p0, hp0⟩ := flushPk_ne_of_ks hks tk.exact
+    have hc : CountersOK cfg su := countersOK_congr e4 e6 e7 hH.sys
+    have hcap : su.b.pendingAcks.length + r.ks.length < ACK_RANGE_CAP := by rw [e5]; omega
+    have hdau : su.a.isDisconnected = false := by rw [e3]; exact hda
+    -- the way back
+    have hback : ∀ u, su.run (roundOps ch r.ks r.n) = some u →
+        u.b.CountersOK ∧ u.b.pendingAcks ≠ [] ∧ r.ai = ackIdx u ∧ u.b.flushSeq ≤ s.b.packetSeq + 1 ∧
+        u.b.pendingAcks.length ≤ s.b.pendingAcks.length + r.ks.length := by
+      intro u hu
+      obtain ⟨hlu, -, -, -⟩ := round_facts cfg _ su hrsu hc hcA hdau (by rw [e5]; exact hdb) ch sA hfu rB
+        (by rw [e5]; exact hfB) (by rw [e6]; exact H3) H4 r.ks tk.exact r.n u hu
+      obtain ⟨hmem, hlenu⟩ := round_pending cfg _ su hrsu hc hcA hdau ch sA hfu r.ks tk.all r.n u hu hlu hcap
+      obtain ⟨hbs, -, hstB, -⟩ := round_headroom cfg ops s hr r.dt su hsu ch r.ks r.n u hu
+      have hai := tk.back u hu
+      have hru : (Sys.init cfg).run ((ops ++ [SysOp.updA r.dt]) ++ roundOps ch r.ks r.n) = some u := by
+        rw [Sys.run_append, hrsu]; exact hu
+      have hfsB := flushSeq_idle (idleB_reach cfg _ u hru)
+      rw [e5] at hlenu
+      exact ⟨countersOK_of_static (hstB hH.staticB) (by omega), mem_ne_nil (hmem p0 hp0), hai, by omega, hlenu⟩
+    have hok : RoundOK cfg ch Sched s r := by
+      refine ⟨hsch.timer, hsch.drain, ?_⟩
+      intro su' hsu'
+      have e := Option.some.inj (hsu'.symm.trans hsu)
+      subst e
+      exact ⟨hc, hcA, tk.sched, tk.all, tk.exact, hcap, fun u hu => ⟨(hback u hu).1, (hback u hu).2.1, (hback u hu).2.2.1⟩⟩
+    refine ⟨hok, ?_⟩
+    intro v hv
+    -- the state after the round
+    obtain ⟨v', hv', hlva, hlvb, hsub, -, -, ⟨rB', hfB', H3'⟩, ⟨sA', hfA', -⟩, -⟩ :=
+      full_round cfg ops s hr hda hdb ch ord ho sA hfA rB hfB H3 r.dt (hsch.timer sA hfA) su hsu hc hcA 0
+        (by simp only [List.take_zero, backlog_nil]; exact Nat.zero_le _) H4 r.ks tk.all tk.exact r.n hsch.drain hcap r.ai
+        (fun u hu => ⟨(hback u hu).1, (hback u hu).2.1, (hback u hu).2.2.1⟩)
+    have e := Option.some.inj (hv'.symm.trans hv)
+    subst e
+    have hrv : (Sys.init cfg).run (ops ++ r.ops ch) = some v' := by rw [Sys.run_append, hr]; exact hv
+    refine rounds_of_sched3 cfg ch ord ho Sched hS rs _ v' sA' rB' hrv hlva hlvb hfA' hfB' (by rw [hsub]; exact H3')
+      (hnext v' hv) ?_
+    -- head-room for the next round
+    have hunv := units_run cfg (r.ops ch) s v' _ h1 hv (roundP_ops_nosend ch r)
+    have hmul : rs.length * (v'.a.units + 1) ≤ X := by
+      rw [← hX]; exact Nat.mul_le_mul_left _ (by omega)
+    have hv2 := hv
+    simp only [RoundP.ops, fullRoundOps, Sys.run, hsu] at hv2
+    rw [Sys.run_append] at hv2
+    cases hu : su.run (roundOps ch r.ks r.n) with
+    | none => rw [hu] at hv2; cases hv2
+    | some u =>
+      rw [hu] at hv2
+      simp only [Option.bind_some] at hv2
+      obtain ⟨hcB, -, -, hfB2, hlenu⟩ := hback u hu
+      obtain ⟨-, -, -, hrest⟩ := round_headroom cfg ops s hr r.dt su hsu ch r.ks r.n u hu
+      obtain ⟨x1, x2, x3, x4, x5, x6, x7⟩ := hrest r.ai v' hv2 hcA hcB
+      have hva : v'.a.packetSeq ≤ Varint.MAX + 1 := by omega
+      exact ⟨⟨hH.sys.chan, hva, by rw [x6]; exact hH.sys.ids, by rw [x6]; exact hH.sys.lens,
+          by rw [x7]; exact hH.sys.lensU⟩, x4 hH.staticA, x5 hH.staticB, by omega, by omega, by rw [x3]; omega⟩
+
+/-! ### executable checkers -/
+
+def headRoom3b (cfg : Cfg) (s : Sys) (rs : List RoundP) : Bool :=
+  countersSysb cfg s && staticb s.a && staticb s.b &&
+  decide (s.a.packetSeq + rs.length * (s.a.units + 1) ≤ Varint.MAX + 1) &&
+  decide (s.b.packetSeq + rs.length ≤ Varint.MAX + 1) &&
+  decide (s.b.pendingAcks.length + kTotal rs < ACK_RANGE_CAP)
+
+theorem headRoom3_of_b {cfg : Cfg} {s : Sys} {rs : List RoundP} (h : headRoom3b cfg s rs = true) : HeadRoom3 cfg s rs := by
+  simp only [headRoom3b, Bool.and_eq_true, decide_eq_true_eq] at h
+  obtain ⟨⟨⟨⟨⟨h1, h2⟩, h3⟩, h4⟩, h5⟩, h6⟩ := h
+  exact ⟨countersSys_of_b h1, static_of_b h2, static_of_b h3, h4, h5, h6⟩
+
+/-- the checker asks for `r.ks ≠ []` only when channel `ch` stores nothing in `su` (round starting with an empty backlog) -/
+def tickSched3b (ch : Nat) (schedb : Sys → Bool) (su : Sys) (r : RoundP) : Bool :=
+  schedb su && decide (∀ k ∈ newIdx su, k ∈ r.ks) && decide (∀ k ∈ r.ks, k ∈ newIdx su) &&
+  (match SMap.find? su.a.sendRel ch with
+   | some sA => !sA.unacked.isEmpty || !r.ks.isEmpty
+   | none => !r.ks.isEmpty) &&
+  (match su.run (roundOps ch r.ks r.n) with
+   | some u => decide (r.ai = ackIdx u)
+   | none => true)
+
+def roundSched3b (ch : Nat) (schedb : Sys → Bool) (s : Sys) (r : RoundP) : Bool :=
+  (match SMap.find? s.a.sendRel ch with
+   | some sA => decide (sA.resend ≤ r.dt)
+   | none => true) &&
+  decide ((s.submitted ch).length ≤ (s.obtained ch).length + r.n) &&
+  (match s.step (.updA r.dt) with
+   | some su => tickSched3b ch schedb su r
+   | none => true)
+
+def roundsSched3b (ch : Nat) (schedb : Sys → Bool) : Sys → List RoundP → Bool
+  | _, [] => true
+  | s, r :: rs => roundSched3b ch schedb s r &&
+    (match s.run (r.ops ch) with
+     | some v => roundsSched3b ch schedb v rs
+     | none => true)
+
+theorem tickSched3_of_b {ch : Nat} {Sched : Sys → Prop} {schedb : Sys → Bool}
+    (hS : ∀ su, schedb su = true → Sched su) {su : Sys} {r : RoundP} (h : tickSched3b ch schedb su r = true) :
+    TickSched3 ch Sched su r := by
+  simp only [tickSched3b, Bool.and_eq_true, decide_eq_true_eq] at h
+  obtain ⟨⟨⟨⟨h1, h2⟩, h3⟩, h4⟩, h5⟩ := h
+  refine ⟨hS su h1, h2, h3, ?_, ?_⟩
+  · intro hall
+    cases hf : SMap.find? su.a.sendRel ch with
+    | none =>
+      rw [hf] at h4
+      dsimp only at h4
+      intro e; rw [e] at h4; cases h4
+    | some sA =>
+      rw [hf] at h4
+      dsimp only at h4
+      rw [hall sA hf] at h4
+      intro e; rw [e] at h4; cases h4
+  · intro u hu
+    rw [hu] at h5
+    simpa using h5
+
+theorem roundSched3_of_b {ch : Nat} {Sched : Sys → Prop} {schedb : Sys → Bool}
+    (hS : ∀ su, schedb su = true → Sched su) {s : Sys} {r : RoundP} (h : roundSched3b ch schedb s r = true) :
+    RoundSched3 ch Sched s r := by
+  simp only [roundSched3b, Bool.and_eq_true, decide_eq_true_eq] at h
+  obtain ⟨⟨h1, h2⟩, h3⟩ := h
+  refine ⟨?_, h2, ?_⟩
+  · intro sA hf
+    rw [hf] at h1
+    simpa using h1
+  · intro su hsu
+    rw [hsu] at h3
+    exact tickSched3_of_b hS h3
+
+theorem roundsSched3_of_b {ch : Nat} {Sched : Sys → Prop} {schedb : Sys → Bool}
+    (hS : ∀ su, schedb su = true → Sched su) : ∀ (rs : List RoundP) (s : Sys), roundsSched3b ch schedb s rs = true →
+    RoundsSched3 ch Sched s rs
+  | [], _, _ => trivial
+  | r :: rs, s, h => by
+    simp only [roundsSched3b, Bool.and_eq_true] at h
+    refine ⟨roundSched3_of_b hS h.1, ?_⟩
+    intro v hv
+    have h2 := h.2
+    rw [hv] at h2
+    exact roundsSched3_of_b hS rs v h2
+
+/-- the second-step predicate is a special case: `RoundsSched2` (with `r.ks ≠ []` in every round) gives `RoundsSched3` -/
+theorem roundsSched3_of_roundsSched2 {ch : Nat} {Sched : Sys → Prop} : ∀ (rs : List RoundP) (s : Sys),
+    RoundsSched2 ch Sched s rs → RoundsSched3 ch Sched s rs
+  | [], _, _ => trivial
+  | r :: rs, s, h => by
+    refine ⟨⟨h.1.timer, h.1.drain, fun su hsu => ?_⟩, fun v hv => roundsSched3_of_roundsSched2 rs v (h.2 v hv)⟩
+    have tk := h.1.tick su hsu
+    exact ⟨tk.sched, tk.all, tk.exact, fun _ => tk.nonempty, tk.back⟩
+
+/-! ### one round that starts with a non-empty backlog: no clause about `r.ks` at all -/
+
+structure TickSched0 (ch : Nat) (Sched : Sys → Prop) (su : Sys) (r : RoundP) : Prop where
+  sched : Sched su
+  all : ∀ k ∈ newIdx su, k ∈ r.ks
+  exact : ∀ k ∈ r.ks, k ∈ newIdx su
+  back : ∀ u, su.run (roundOps ch r.ks r.n) = some u → r.ai = ackIdx u
+
+structure RoundSched0 (ch : Nat) (Sched : Sys → Prop) (s : Sys) (r : RoundP) : Prop where
+  timer : ∀ sA, SMap.find? s.a.sendRel ch = some sA → sA.resend ≤ r.dt
+  drain : (s.submitted ch).length ≤ (s.obtained ch).length + r.n
+  tick : ∀ su, s.step (.updA r.dt) = some su → TickSched0 ch Sched su r
+
+theorem roundsSched3_one {ch : Nat} {Sched : Sys → Prop} {s : Sys} {r : RoundP} (h : RoundSched0 ch Sched s r)
+    {sA : SendRel} (hfA : SMap.find? s.a.sendRel ch = some sA) (hne : sA.unacked ≠ []) : RoundsSched3 ch Sched s [r] := by
+  refine ⟨⟨h.timer, h.drain, fun su hsu => ?_⟩, fun _ _ => trivial⟩
+  have tk := h.tick su hsu
+  obtain ⟨-, e2, -⟩ := updA_frame hsu
+  exact ⟨tk.sched, tk.all, tk.exact, fun hall => absurd (hall sA (by rw [e2]; exact hfA)) hne, tk.back⟩
+
+def roundSched0b (ch : Nat) (schedb : Sys → Bool) (s : Sys) (r : RoundP) : Bool :=
+  (match SMap.find? s.a.sendRel ch with
+   | some sA => decide (sA.resend ≤ r.dt)
+   | none => true) &&
+  decide ((s.submitted ch).length ≤ (s.obtained ch).length + r.n) &&
+  (match s.step (.updA r.dt) with
+   | some su => schedb su && decide (∀ k ∈ newIdx su, k ∈ r.ks) && decide (∀ k ∈ r.ks, k ∈ newIdx su) &&
+      (match su.run (roundOps ch r.ks r.n) with
+       | some u => decide (r.ai = ackIdx u)
+       | none => true)
+   | none => true)
+
+theorem roundSched0_of_b {ch : Nat} {Sched : Sys → Prop} {schedb : Sys → Bool}
+    (hS : ∀ su, schedb su = true → Sched su) {s : Sys} {r : RoundP} (h : roundSched0b ch schedb s r = true) :
+    RoundSched0 ch Sched s r := by
+  simp only [roundSched0b, Bool.and_eq_true, decide_eq_true_eq] at h
+  obtain ⟨⟨h1, h2⟩, h3⟩ := h
+  refine ⟨?_, h2, ?_⟩
+  · intro sA hf
+    rw [hf] at h1
+    simpa using h1
+  · intro su hsu
+    rw [hsu] at h3
+    simp only [Bool.and_eq_true, decide_eq_true_eq] at h3
+    obtain ⟨⟨⟨a1, a2⟩, a3⟩, a4⟩ := h3
+    refine ⟨hS su a1, a2, a3, ?_⟩
+    intro u hu
+    rw [hu] at a4
+    simpa using a4
+
 end RenetVerif.FlushCount
